@@ -65,3 +65,26 @@ Theorem C14_paused_condition_names_reason : forall sn pl st',
      exists c, get_cond (es_conds st') ECT_CanaryPaused = Some c /\ c_status c = CTrue /\ c_reason c = sf_reason f).
 Proof. exact paused_condition_reason. Qed.
 Print Assumptions C14_paused_condition_names_reason.
+
+(** The quiescence clause, the controller's half: at rest - every planning item holds a Ready pod of the live template,
+    which is where every fair run ends ([C02_rollout_converges]) - the counters of the active role are the number of
+    targeted nodes, four times, and no node is ignored ... *)
+Theorem C14_counters_at_rest : forall rs ann ru now items rp,
+  rolling_plan_of rs ann ru now items = Ok rp ->
+  (forall i, In i items -> classify rs now i = UpToDate true) ->
+  rolling_status_counts rp = (zlen items, zlen items, zlen items, zlen items, 0).
+Proof. exact counters_at_rest. Qed.
+Print Assumptions C14_counters_at_rest.
+
+(** ... and so is the status the active replica set's sync writes (whenever the strategy resolves, i.e. a rolling plan
+    exists): desired = current = ready = available = the targeted (eligible, non-canary) nodes.  The ExtendedDaemonSet's
+    own counters are functions of the replica sets' statuses ([C14_refines]). *)
+Theorem C14_active_status_at_rest : forall sn ch pl st e freq cx,
+  ers_sync sn ch = Ok pl -> sn_eds sn = Some e -> is_defaulted e = true ->
+  st_freq (e_strategy e) = Some freq -> sync_gate sn freq = None -> build_ctx sn e freq = Ok cx ->
+  cx_role cx = RoleActive -> pl_rolling pl <> None -> pl_status pl = Some st ->
+  (forall i, In i (planning_items cx) -> classify (sn_rs sn) (sn_now sn) i = UpToDate true) ->
+  rs_desired st = zlen (planning_items cx) /\ rs_current st = zlen (planning_items cx) /\
+  rs_ready st = zlen (planning_items cx) /\ rs_available st = zlen (planning_items cx) /\ rs_ignored st = 0.
+Proof. exact active_status_at_rest. Qed.
+Print Assumptions C14_active_status_at_rest.
